@@ -424,6 +424,148 @@ fn other_threads(rep: &mut Report, inputs: &[Term], rng: &mut Rng) {
     }
 }
 
+/// C07 over HISTORIES ("same hash under the same hasher", "found again by any equal term"): the hash of a term is a
+/// function of the term and the hasher, not of what the thread has hashed before.  On one thread (large stack, so that the
+/// recursion depth itself is no obstacle): hash the probes (fresh DefaultHasher = a fixed-key hasher, one RandomState),
+/// fill a HashSet / HashMap with them; then hash and look up many OTHER terms -- ordinary ones and terms nested 130..300
+/// deep along every kind of spine, repeatedly -- and at several checkpoints hash the probes (and separately built equal
+/// copies) again, look them up again, and hash them on a fresh thread.  Probes: a sample of the ordinary inputs, small
+/// everyday terms, and spines of every shape whose depth lies around the powers of two up to 256 (where a depth limit,
+/// cache size or truncation would sit).  Equal deep terms must hash alike as well.
+fn hash_history(rep: &mut Report, inputs: &[Term], rng: &mut Rng, thorough: bool) {
+    let mut probes: Vec<Term> = vec![];
+    let step = (inputs.len() / 40).max(1);
+    probes.extend(inputs.iter().step_by(step).take(40).cloned());
+    probes.push(Term::new_similarity(Term::new_set_extension(vec![Term::new_word("A"), Term::new_word("B")]), Term::new_word("C")));
+    probes.push(Term::new_word("A"));
+    probes.push(Term::new_product(vec![Term::new_word("A"), Term::Placeholder]));
+    // equal copies, built separately (fresh HashSets, symmetric operands exchanged)
+    let mut copies: Vec<Term> = probes.iter().map(|p| rebuild(p, rng)).collect();
+    for shape in 0..DEEP_SHAPES {
+        let mut ds: Vec<usize> = [1usize, 2, 7, 8, 15, 16, 31, 32, 63, 64, 100, 126, 127, 128, 129].into_iter().filter(|_| shape < 2 || shape == 9 || rng.chance(1, 3)).collect();
+        ds.push(255 + rng.below(3));
+        for d in ds {
+            probes.push(deep_term(shape, d, "p"));
+            copies.push(deep_term_spelled(shape, d, "p", true));
+        }
+    }
+    let rounds = if thorough { 12 } else { 5 };
+    let mut trng = rng.fork(0x7C07);
+    let (tp, tc) = (probes.clone(), copies.clone());
+    type Found = (String, String, String, String);
+    let work = move || -> (Vec<Found>, u64, u64) {
+        let (probes, copies) = (tp, tc);
+        let mut found: Vec<Found> = vec![];
+        let mut deep_hashed = 0u64;
+        let mut checks = 0u64;
+        let rs = std::collections::hash_map::RandomState::new();
+        let base: Vec<(u64, u64)> = probes.iter().map(|p| (default_hash(p), rs.hash_one(p))).collect();
+        let mut hs: HashSet<Term> = HashSet::new();
+        let mut hm: HashMap<Term, usize> = HashMap::new();
+        for (i, p) in probes.iter().enumerate() {
+            hs.insert(p.clone());
+            hm.insert(p.clone(), i);
+        }
+        let mut history = String::from("only the probes themselves, each hashed twice and inserted into a HashSet and a HashMap (they include spines of every shape up to 257 deep)");
+        let check = |found: &mut Vec<Found>, history: &str, checks: &mut u64| {
+            // the same probes hashed on a fresh thread at this moment
+            let sent = probes.clone();
+            let there = std::thread::Builder::new().stack_size(256 << 20).spawn(move || sent.iter().map(|t| guard(|| default_hash(t))).collect::<Vec<_>>()).ok().and_then(|h| h.join().ok());
+            for (i, p) in probes.iter().enumerate() {
+                *checks += 1;
+                let c = &copies[i];
+                let now = guard(|| (default_hash(p), rs.hash_one(p), default_hash(c), rs.hash_one(c)));
+                let input = format!("{}   [history of the hashing thread: {}]", show(p), history);
+                match now {
+                    None => found.push(("hashing a term panicked".into(), input.clone(), "a hash".into(), "panic".into())),
+                    Some((d, r, dc, rc)) => {
+                        if (d, r) != base[i] {
+                            found.push(("the same term hashes differently (same hasher) after the thread has hashed other terms".into(), input.clone(), format!("{:x}/{:x}", base[i].0, base[i].1), format!("{:x}/{:x}", d, r)));
+                        }
+                        if c == p && (dc, rc) != base[i] {
+                            found.push(("an equal term hashes differently from the hash its equal had before the thread hashed other terms".into(), input.clone(), format!("{:x}/{:x}", base[i].0, base[i].1), format!("{:x}/{:x}", dc, rc)));
+                        }
+                    }
+                }
+                let looked = guard(|| (hs.contains(p), hm.get(p).map(|j| probes[*j] == *p) == Some(true), c != p || (hs.contains(c) && hm.get(c).map(|j| probes[*j] == *c) == Some(true))));
+                if looked != Some((true, true, true)) {
+                    found.push(("a term inserted into a hash set / map is not found again (by itself, by an equal term) after the thread has hashed other terms".into(), input.clone(), "found".into(), format!("{:?}", looked)));
+                }
+                match &there {
+                    Some(v) => {
+                        if v[i] != Some(base[i].0) {
+                            found.push(("the same term hashed with a fresh DefaultHasher on a fresh thread gives another hash than on the thread with a history".into(), input.clone(), format!("{:x}", base[i].0), format!("{:x?}", v[i])));
+                        }
+                    }
+                    None => found.push(("hashing on a fresh thread died".into(), input.clone(), "hashes".into(), "panic".into())),
+                }
+            }
+        };
+        check(&mut found, &history, &mut checks);
+        // the other terms: ordinary ones and deep ones; built HERE (building sets hashes too), after the baseline
+        let ordinary: Vec<Term> = (0..30).map(|k| deep_term(k, 3 + k % 9, "o")).collect();
+        let mut deep: Vec<(usize, usize, Term)> = vec![];
+        for shape in 0..DEEP_SHAPES {
+            for levels in [130 + trng.below(12), 150 + trng.below(151)] {
+                deep.push((shape, levels, deep_term(shape, levels, "d")));
+            }
+        }
+        // ONE deep term, hashed once
+        let first = deep_term(1, 300, "f");
+        let _ = guard(|| default_hash(&first));
+        deep_hashed += 1;
+        history = "one product nested 300 deep, hashed once (deep_term(1,300,\"f\"))".into();
+        check(&mut found, &history, &mut checks);
+        for round in 0..rounds {
+            for t in &ordinary {
+                let _ = guard(|| (default_hash(t), hs.contains(t)));
+            }
+            for (shape, levels, d) in deep.iter() {
+                let looked = guard(|| (default_hash(d), rs.hash_one(d), hs.contains(d), hm.get(d).is_some()));
+                deep_hashed += 1;
+                if looked.is_none() {
+                    found.push(("hashing a deeply nested term panicked".into(), format!("deep_term({}, {}, \"d\") = {}", shape, levels, show(d)), "a hash".into(), "panic".into()));
+                }
+                if round == 0 {
+                    // equal deep terms hash alike and find each other
+                    let d2 = deep_term_spelled(*shape, *levels, "d", true);
+                    let same = guard(|| {
+                        if *d == d2 {
+                            let mut one = HashSet::new();
+                            one.insert(d.clone());
+                            default_hash(d) == default_hash(&d2) && rs.hash_one(d) == rs.hash_one(&d2) && one.contains(&d2)
+                        } else {
+                            false
+                        }
+                    });
+                    if same != Some(true) {
+                        found.push(("two equal deeply nested terms built separately are unequal, hash differently, or do not find each other".into(), show(d), "equal, same hash, found".into(), format!("{:?}", same)));
+                    }
+                }
+            }
+            history = format!("one product nested 300 deep, then {} round(s) of: 30 ordinary terms and {} terms nested 130..300 deep (every spine shape of gen::deep_term), each hashed twice and looked up in a HashSet and a HashMap", round + 1, deep.len());
+            if round == 0 || round + 1 == rounds || round == rounds / 2 {
+                check(&mut found, &history, &mut checks);
+            }
+        }
+        (found, deep_hashed, checks)
+    };
+    let res = std::thread::Builder::new().stack_size(256 << 20).spawn(work).ok().and_then(|h| h.join().ok());
+    match res {
+        Some((mut found, deep_hashed, checks)) => {
+            rep.evaluations += checks;
+            rep.hist.0.insert("history:probe-checks".into(), checks);
+            rep.hist.0.insert("history:deep-terms-hashed".into(), deep_hashed);
+            // the smallest inputs first
+            found.sort_by_key(|f| f.1.len());
+            for (what, input, expected, got) in found.into_iter().take(12) {
+                rep.fail(Failure { stream: "hash-history".into(), what, input, expected, got, known: None });
+            }
+        }
+        None => rep.fail(Failure { stream: "hash-history".into(), what: "the thread hashing a history of terms died".into(), input: "probes, then gen::deep_term(shape, 130..300, ..) for every shape".into(), expected: "".into(), got: "panic / stack overflow".into(), known: None }),
+    }
+}
+
 pub fn run_c07(o: &Opts) -> Report {
     let mut rep = Report::new(
         "C07",
@@ -431,6 +573,8 @@ pub fn run_c07(o: &Opts) -> Report {
          (oracle for the model's fixed_hash); plus on the real code: equal pairs (t, rebuild(t)) hashed under fresh RandomStates, \
          HashSet::contains / HashMap::get with the equal key; near-miss pairs (images with placeholder components / out-of-range indices, \
          placeholder components) must be unequal or hash alike; the same term hashed on a spawned thread, hash sets / maps filled on another thread; \
+         histories: probes (inputs, everyday terms, spines of every constructor kind 1..257 deep) hashed / looked up before and after the thread hashed many other terms \
+         incl. terms nested 130..300 deep, and on a fresh thread; \
          distinct = distinct canonical forms; non-trivial = contains an unordered or symmetric node",
     );
     let mut rng = Rng::new(o.seed ^ 0xC07);
@@ -487,6 +631,8 @@ pub fn run_c07(o: &Opts) -> Report {
     // "under the same hasher" does not depend on the thread: the same values hashed with a fresh DefaultHasher on a spawned
     // thread, and a HashSet / HashMap filled on another thread and looked up here
     other_threads(&mut rep, &inputs, &mut rng);
+    // ... nor on what the thread has hashed before (histories): see hash_history
+    hash_history(&mut rep, &inputs, &mut rng, o.thorough);
     for (i, a) in inputs.iter().enumerate() {
         let a = a.clone();
         rep.evaluations += 1;
@@ -842,6 +988,130 @@ const NAME_POOL: &[&str] = &[
     "^go", "^", "$x", "#y", "?z", "_w", "+1a", "\\$v", "某甲", "操作x", "^^", "$",
 ];
 
+/// an iterator with the weakest LEGAL size hint `(0, None)` / `(0, Some(n))` around a batch
+struct VagueHint(std::vec::IntoIter<Term>, bool);
+impl Iterator for VagueHint {
+    type Item = Term;
+    fn next(&mut self) -> Option<Term> {
+        self.0.next()
+    }
+    fn size_hint(&self) -> (usize, Option<usize>) {
+        (0, if self.1 { None } else { Some(self.0.len()) })
+    }
+}
+
+/// number of ways `push_batch` delivers a batch
+const BATCH_KINDS: usize = 22;
+fn batch_kind_name(kind: usize) -> &'static str {
+    [
+        "Vec", "array", "VecDeque", "boxed slice -> into_vec", "vec::IntoIter by value", "filter(|_| true)", "boxed filter(|_| true)", "flat_map(Some)",
+        "map(Some).flatten()", "iter::from_fn", "skip_while(|_| false)", "take_while(|_| true)", "chain(filter, filter)", "chain(exact, filter)",
+        "iter::successors over indices", "size_hint (0, None)", "size_hint (0, Some(len))", "scan", "filter_map(Some)", "peekable", "map(identity) (exact hint)", "rev of reversed",
+    ][kind]
+}
+/// `t.push_components(batch)` with the batch `v` delivered through one of many kinds of `IntoIterator<Item = Term>`, all
+/// yielding exactly the elements of `v` in order; true = Ok
+fn push_batch(t: &mut Term, kind: usize, v: Vec<Term>) -> bool {
+    use std::collections::VecDeque;
+    let n = v.len();
+    match kind {
+        0 => t.push_components(v).is_ok(),
+        1 => match n {
+            0 => t.push_components(<[Term; 0]>::try_from(v).ok().unwrap()).is_ok(),
+            1 => t.push_components(<[Term; 1]>::try_from(v).ok().unwrap()).is_ok(),
+            2 => t.push_components(<[Term; 2]>::try_from(v).ok().unwrap()).is_ok(),
+            3 => t.push_components(<[Term; 3]>::try_from(v).ok().unwrap()).is_ok(),
+            4 => t.push_components(<[Term; 4]>::try_from(v).ok().unwrap()).is_ok(),
+            _ => t.push_components(v).is_ok(),
+        },
+        2 => t.push_components(VecDeque::from(v)).is_ok(),
+        3 => t.push_components(v.into_boxed_slice().into_vec()).is_ok(),
+        4 => t.push_components(v.into_iter()).is_ok(),
+        5 => t.push_components(v.into_iter().filter(|_| true)).is_ok(),
+        6 => t.push_components(Box::new(v.into_iter().filter(|_| true)) as Box<dyn Iterator<Item = Term>>).is_ok(),
+        7 => t.push_components(v.into_iter().flat_map(Some)).is_ok(),
+        8 => t.push_components(v.into_iter().map(Some).flatten()).is_ok(),
+        9 => {
+            let mut it = v.into_iter();
+            t.push_components(std::iter::from_fn(move || it.next())).is_ok()
+        }
+        10 => t.push_components(v.into_iter().skip_while(|_| false)).is_ok(),
+        11 => t.push_components(v.into_iter().take_while(|_| true)).is_ok(),
+        12 => {
+            let mut a = v;
+            let b = a.split_off(n / 2);
+            t.push_components(a.into_iter().filter(|_| true).chain(b.into_iter().filter(|_| true))).is_ok()
+        }
+        13 => {
+            let mut a = v;
+            let b = a.split_off(n / 2);
+            t.push_components(a.into_iter().chain(b.into_iter().filter(|_| true))).is_ok()
+        }
+        14 => t.push_components(std::iter::successors(if n > 0 { Some(0usize) } else { None }, move |i| if i + 1 < n { Some(i + 1) } else { None }).map(move |i| v[i].clone())).is_ok(),
+        15 => t.push_components(VagueHint(v.into_iter(), true)).is_ok(),
+        16 => t.push_components(VagueHint(v.into_iter(), false)).is_ok(),
+        17 => t.push_components(v.into_iter().scan((), |_, x| Some(x))).is_ok(),
+        18 => t.push_components(v.into_iter().filter_map(Some)).is_ok(),
+        19 => t.push_components(v.into_iter().peekable()).is_ok(),
+        20 => t.push_components(v.into_iter().map(|x| x)).is_ok(),
+        _ => {
+            let mut r = v;
+            r.reverse();
+            t.push_components(r.into_iter().rev()).is_ok()
+        }
+    }
+}
+
+/// C17, "for all component lists cs": the list may reach `push_components` through ANY `IntoIterator<Item = Term>` (the
+/// parameter type) -- containers with exact size hints and lazy adaptors whose lower size hint is 0 or partial.  Outcome and
+/// post-state must be those for the plain Vec (which the reference and the model judge), for every constructor.
+fn push_through_iterators(rep: &mut Report, rng: &mut Rng, g: &TermGen, work: &mut Vec<(Term, Option<String>, Option<Vec<Term>>)>, n: usize) {
+    let mut targets: Vec<Term> = vec![];
+    for k in 0..30 {
+        targets.push(g.term_of(rng, 2, k));
+    }
+    // every variable-arity constructor also empty and with one component
+    for kind in [7usize, 8, 9, 10, 13, 14, 15, 16, 17, 19, 20] {
+        targets.extend(compound_of(kind, 0, &[]));
+        targets.extend(compound_of(kind, 1, &[g.atom(rng)]));
+    }
+    for _ in 0..(n / 10).max(20) {
+        targets.push(g.term(rng, 1));
+    }
+    for t in targets {
+        let len = rng.below(5);
+        let mut news: Vec<Term> = (0..len).map(|_| g.term(rng, 3)).collect();
+        if len >= 2 && rng.chance(1, 3) {
+            news[len - 1] = news[0].clone();
+        }
+        if len >= 1 && rng.chance(1, 3) {
+            if let Some(c) = t.get_components().first() {
+                news[0] = respell(c);
+            }
+        }
+        let mut plain = t.clone();
+        let ok_plain = push_batch(&mut plain, 0, news.clone());
+        for kind in 1..BATCH_KINDS {
+            rep.evaluations += 1;
+            rep.hist.add(format!("push-through:{}", batch_kind_name(kind)));
+            let mut after = t.clone();
+            let got = guard(|| push_batch(&mut after, kind, news.clone()));
+            if got != Some(ok_plain) || after != plain || canon(&after) != canon(&plain) {
+                rep.fail(Failure {
+                    stream: "push-through-iterators".into(),
+                    what: "push_components with the batch delivered through another kind of IntoIterator differs from the same batch given as a Vec".into(),
+                    input: format!("push_components({}, {:?} delivered as {})", show(&t), news, batch_kind_name(kind)),
+                    expected: format!("{} {}", if ok_plain { "Ok" } else { "Err" }, show(&plain)),
+                    got: format!("{} {}", match got { Some(true) => "Ok", Some(false) => "Err", None => "panic" }, show(&after)),
+                    known: None,
+                });
+            }
+        }
+        // the plain Vec call is judged by the reference below and by the model
+        work.push((t, None, Some(news)));
+    }
+}
+
 pub fn run_c17(o: &Opts) -> Report {
     let mut rep = Report::new(
         "C17",
@@ -849,6 +1119,8 @@ pub fn run_c17(o: &Opts) -> Report {
          every constructor x component lists (0..4 items, incl. duplicates of existing components) for push_components; \
          every variable-arity constructor x batches holding an element equal to an existing one but spelled differently (operands of <->, <=>, <|> exchanged, \
          sets re-inserted in another order; bare and nested): the union holds no two == components and lacks none; \
+         every constructor x batches of 0..4 delivered through 22 kinds of IntoIterator (Vec, array, VecDeque, filter, flat_map, flatten, from_fn, skip_while, take_while, chain, \
+         successors, scan, vague size hints ...): same outcome and post-state as for the Vec; \
          on the real code: outcome and post-state vs an independent reference, on Err unchanged; distinct = distinct (term, op) canonical pairs; non-trivial = all",
     );
     let mut rng = Rng::new(o.seed ^ 0xC17);
@@ -923,6 +1195,8 @@ pub fn run_c17(o: &Opts) -> Report {
             }
         }
     }
+    // the same batches through every kind of IntoIterator (lazy adaptors, vague size hints, other containers)
+    push_through_iterators(&mut rep, &mut rng, &g, &mut work, o.n);
     for (t, name, news) in work {
         rep.evaluations += 1;
         let mut after = t.clone();
